@@ -221,7 +221,9 @@ fn dispatch(a: &Args, replay: Option<(Vec<String>, String)>) -> ! {
             match &replay {
                 None if a.cmd == "family" => {
                     let tmax = a.num("t", 5) as usize;
-                    run_family(s, a, family::k_histories(&family_sizes(a), tmax))
+                    let mut hs = family::k_histories(&family_sizes(a), tmax);
+                    hs.extend(family::k_histories_waves(&family_sizes(a), tmax));
+                    run_family(s, a, hs)
                 }
                 None => run_bfs(s, a),
                 Some((h, sig)) => run_replay(s, a, h, sig),
